@@ -8,6 +8,9 @@ M = []          # (name, file, old, new, [properties expected to fire])
 N = []          # neutral edits: (name, file, old, new, [properties that must stay silent])
 
 
+SS = "src/sentence.rs"
+
+
 def m(name, file, old, new, props):
     M.append((name, file, old, new, props))
 
@@ -33,6 +36,11 @@ m("c09-22-as-static", S + "mod.rs", "24 => Ok(AisMessage::StaticDataReport(", "2
 n("n-c09-23-to-position", S + "mod.rs", "1..=3 => Ok(AisMessage::PositionReport(", "1..=3 | 23 => Ok(AisMessage::PositionReport(", ["C09"])
 # ---- C12
 m("c12-ship-31-32", S + "types.rs", "31 => Some(Self::Towing),\n            32 => Some(Self::TowingLarge),", "32 => Some(Self::Towing),\n            31 => Some(Self::TowingLarge),", ["C12"])
+m("c12-assigned-mode-from-spare", S + "standard_aircraft_position_report.rs", "        let (data, _spare) = take_bits::<_, u8, _, _>(3u8)(data)?;\n        let (data, assigned_mode) = map(take_bits(1u8), AssignedMode::parse)(data)?;", "        let (data, assigned_mode) = map(take_bits(1u8), AssignedMode::parse)(data)?;\n        let (data, _spare) = take_bits::<_, u8, _, _>(3u8)(data)?;", ["C12", "C04"])
+m("c02-body-bounded-run", SS, "peek(take_until(\"*\"))", "peek(nom::bytes::complete::take_while_m_n(0, 384, |c| c != b'*'))", ["C02"])
+n("n-c02-body-take-till", SS, "peek(take_until(\"*\"))", "peek(nom::sequence::terminated(nom::bytes::complete::take_till(|c| c == b'*'), peek(nom::character::complete::char('*'))))", ["C02", "C08", "C01"])
+m("c07-channel-alpha-only", SS, "opt(anychar)(channel_bytes)", "opt(nom::combinator::verify(anychar, |c: &char| c.is_ascii_alphabetic()))(channel_bytes)", ["C07"])
+m("c10-type27-cog-via-tenths", S + "long_range_ais_broadcast.rs", "        _ => Some(data as f32), // Course in degrees (0-359)", "        _ => parse_cog(data * 10),", ["C10", "C11"])
 m("c12-reverse-54-55", S + "types.rs", "AntiPollutionEquipment => 54,", "AntiPollutionEquipment => 55,", ["C12"])
 m("c12-epfd-15", S + "types.rs", "            15 => None,\n            _ => Some(Self::Unknown(data)),", "            _ => Some(Self::Unknown(data)),", ["C12"])
 m("c12-navaid-swap", S + "aid_to_navigation_report.rs", "9 => Some(Self::BeaconCardinalN),\n            10 => Some(Self::BeaconCardinalE),", "9 => Some(Self::BeaconCardinalE),\n            10 => Some(Self::BeaconCardinalN),", ["C12"])
@@ -68,7 +76,6 @@ m("c16-itdma-increment-12", S + "radio_status.rs", "let (data, slot_increment) =
 m("c16-type3-sotdma", S + "radio_status.rs", "1 | 2 | 4 | 11 | 9 => SotdmaMessage::parse(input),\n        3 => ItdmaMessage::parse(input),", "1 | 2 | 4 | 11 | 9 | 3 => SotdmaMessage::parse(input),", ["C16"])
 m("c16-type18-selector-swapped", S + "standard_class_b_position_report.rs", "0 => SotdmaMessage::parse(data)?,\n            1 => ItdmaMessage::parse(data)?,", "1 => SotdmaMessage::parse(data)?,\n            0 => ItdmaMessage::parse(data)?,", ["C16"])
 # ---- C08
-SS = "src/sentence.rs"
 m("c08-fill-le-6", SS, "|val| *val < 6", "|val| *val <= 6", ["C08"])
 m("c08-hex-fff", SS, "val <= &0xff", "val <= &0xfff", ["C08"])
 m("c08-hash-start", SS, 'alt((tag("!"), tag("$")))', 'alt((tag("!"), tag("$"), tag("#")))', ["C08"])
